@@ -744,6 +744,9 @@ Lemma adsafe_set_last_len l : adsafe (lift (modify (fun s => s <| last_len := l 
 Proof. apply adsafe_lift_tables. intros s r s' [= <- <-]. by repeat split. Qed.
 Lemma adsafe_set_trig k : adsafe (lift (modify (fun s => s <| trig := k |>))).
 Proof. apply adsafe_lift_tables. intros s r s' [= <- <-]. by repeat split. Qed.
+(** [bdd._bdd.max_nodes = n] *)
+Lemma adsafe_set_max_nodes n : adsafe (lift (modify (fun s => s <| max_nodes := n |>))).
+Proof. apply adsafe_lift_tables. intros s r s' [= <- <-]. by repeat split. Qed.
 
 (** [Function.__del__] *)
 Lemma drop_specD h a r a' : AInvDT a → Autoref.drop h a = (r, a') →
@@ -775,13 +778,14 @@ Qed.
 (** the alphabet with dynamic reordering possibly enabled: the decorated
     methods, the operators and the read-only views of [Function], [drop],
     [collect_garbage], [declare], [configure] with ANY argument, the setters
-    of the threshold and of the forced trigger *)
+    of the threshold and of the forced trigger, the assignment of the node
+    limit [max_nodes] (any value) *)
 Definition a_allowedD (o : aop) : bool :=
   match o with
   | ADeclare _ | AVar _ | ATrue | AFalse | AApply _ _ _ _ | AIte _ _ _ | ALet _ _
   | AQuantify _ _ _ | ACube _ | ASupport _ | AFApply _ _ _ | AEq _ _ | ANe _ _
   | AChild _ _ | ASucc _ | ALevel _ | AVarOf _ | ARef _ | ANegated _ | AInt _
-  | ADrop _ | AGc | AConfigure _ | ASetLastLen _ | ASetTrig _ => true
+  | ADrop _ | AGc | AConfigure _ | ASetLastLen _ | ASetTrig _ | ASetMaxNodes _ => true
   | _ => false
   end.
 
@@ -796,7 +800,7 @@ Proof.
                 | apply adsafe_a_succ | apply adsafe_f_level | apply adsafe_f_var
                 | apply adsafe_f_ref | apply adsafe_f_negated | apply adsafe_node_of
                 | apply adsafe_gc | apply adsafe_configure | apply adsafe_set_last_len
-                | apply adsafe_set_trig ]
+                | apply adsafe_set_trig | apply adsafe_set_max_nodes ]
          |intros ?; adsafe]).
   by destruct (Hd hu).
 Qed.
